@@ -565,6 +565,10 @@ func (rl *respDeserializer) getChunkedString() (value respBulkString, valid bool
 		if count == 0 {
 			return respBulkString(sb.String()), true
 		}
+		if count < 0 {
+			valid = false
+			return
+		}
 
 		var str respBulkString
 		if str, valid = rl.peekBulkLine(count); !valid {
